@@ -539,6 +539,7 @@ func (e *Env) Monitor(st *Step) {
 		e.monitorDecay(st)
 	}
 	e.monitorSettled(st, f, kind, ok)
+	e.monitorValidatorSettled(st, f, kind, ok)
 	e.monitorSplit(st, kind, ok)
 	e.monitorWeightSettled(st, ok)
 
